@@ -28,6 +28,7 @@ type Req struct {
 	Compile bool // also run Compile
 	Code    bool // return the emitted code itself (not only its hash)
 	Dump    bool // return the tree dump
+	Twice   bool // generate twice from two fresh trees with ONE shared argument slice (which has spare capacity)
 	Conc    []Req
 	Gor     int
 	Reps    int
@@ -43,6 +44,7 @@ type Res struct {
 	CodeSHA    string           `json:",omitempty"`
 	Code       string           `json:",omitempty"`
 	CompileErr string           `json:",omitempty"`
+	Repeat     string           `json:",omitempty"` // non-empty: the second generation with the same argument list differed
 	Conc       []map[string]int `json:",omitempty"` // per sub-request: distinct results -> count
 }
 
@@ -77,6 +79,24 @@ func dump[T nodeLike[T]](sb *strings.Builder, n T, depth int) {
 func sha(b []byte) string { h := sha256.Sum256(b); return hex.EncodeToString(h[:]) }
 
 func one(req *Req) (res Res) {
+	if req.Twice {
+		// a caller that keeps its argument list in a slice built with append (cap > len) and generates twice
+		args := req.Args
+		if args == nil {
+			args = []string{"peg"}
+		}
+		shared := append(make([]string, 0, len(args)+3), args...)
+		r1 := *req
+		r1.Twice, r1.Args = false, shared
+		a := one(&r1)
+		r2 := *req
+		r2.Twice, r2.Args = false, shared
+		b := one(&r2)
+		if a.CodeSHA != b.CodeSHA || a.CompileErr != b.CompileErr || strings.Join(shared, "\x00") != strings.Join(args, "\x00") {
+			a.Repeat = fmt.Sprintf("first %s / second %s; argument list afterwards %q", a.CodeSHA[:12], b.CodeSHA[:min(12, len(b.CodeSHA))], shared)
+		}
+		return a
+	}
 	res.ID = req.ID
 	defer func() {
 		if r := recover(); r != nil {
